@@ -86,6 +86,26 @@ def gen(ctx, deep):
 
             shape2 = pc.Shape("prio2/enforcer", pc.PRIO2, "p", "p2", UNIVERSE, pi=0, pt=0, initial=init)
             shapes_hists.append((shape2, [[p2(o) for o in h] for h in hists[:: 1 if deep else 3]]))
+        if len(init) >= 2 and (deep or rng.random() < 0.15):
+            # the same histories on a model whose priority field is the LAST one (p = sub, obj, act, eft, priority)
+            def mv(r):
+                return list(r[1:]) + [r[0]]
+
+            def last(o):
+                if o[0] in ("add", "remove"):
+                    return o[:3] + (mv(o[3]),)
+                if o[0] in ("addmany", "removemany"):
+                    return o[:3] + ([mv(r) for r in o[3]],)
+                if o[0] == "update":
+                    return o[:3] + (mv(o[3]), mv(o[4]))
+                if o[0] == "updatemany":
+                    return o[:3] + ([mv(r) for r in o[3]], [mv(r) for r in o[4]])
+                if o[0] == "removefiltered":
+                    return o[:3] + (o[3] - 1,) + tuple(o[4:])
+                return o
+
+            shape3 = pc.Shape("prio-last/enforcer", pc.PRIO_LAST, "p", "p", [mv(r) for r in UNIVERSE], pi=4, pt=4, initial=[mv(r) for r in init])
+            shapes_hists.append((shape3, [[last(o) for o in h] for h in hists[:: 1 if deep else 3]]))
     return shapes_hists
 
 
